@@ -74,8 +74,9 @@ func (s *Store) compactMaybe(higher Snapshot,
 
 	var sizeBefore, sizeAfter int64
 
-	if len(slocs) > 0 {
-		mref := slocs[0].mref
+	{
+		// The segments might all belong to child collections.
+		mref := footer.mmapRefAny()
 		if mref != nil && mref.fref != nil {
 			var finfo os.FileInfo
 			if partialCompactStart == 0 {
